@@ -374,6 +374,112 @@ def rule_roles(rep: Report, rid="C05.roles", rid_text="C03.text", cls_q=MQ, want
                    [fmt(x, I) for x in got_lists], **_kw(m))
 
 
+def match_paths(m: MethodNF, limit=4000):
+    """Paths through a match method's effect tree: [(assignment of atomic tests, sink reached?, returned term or None, exit)].
+    Loops are taken zero times or once; a return inside a loop sets that loop's ('loopret', id) atom for its own frame."""
+    out = []
+
+    def unknown_atom(c, assign):
+        atoms = []
+        nf._test_atoms(c, atoms)
+        for a in atoms:
+            if a not in assign:
+                return a
+        return None
+
+    def seq(nodes, i, st, depth, loops, k):
+        """Run nodes[i:]; call k(exit, st) for every way the block ends."""
+        if len(out) > limit:
+            return
+        if i >= len(nodes):
+            k(None, st)
+            return
+        n = nodes[i]
+        kind = n[0]
+        nxt = lambda ex, st2: seq(nodes, i + 1, st2, depth, loops, k) if ex is None else k(ex, st2)
+        if kind == "if":
+            try:
+                v = nf.eval_test(n[1], st["assign"])
+            except KeyError:
+                a = unknown_atom(n[1], st["assign"])
+                if a is None:
+                    a = n[1]
+                for val in (True, False):
+                    st2 = dict(st, assign=dict(st["assign"], **{}))
+                    st2["assign"][a] = val
+                    seq(nodes, i, st2, depth, loops, k)
+                return
+            seq(n[2] if v else n[3], 0, st, depth, loops, nxt)
+        elif kind == "call":
+            def after_call(ex, st2):
+                nxt(None if ex == "return" else ex, st2)
+            seq(n[2], 0, st, depth + 1, loops, after_call)
+        elif kind == "loop":
+            lid = n[1]
+            lr = ("loopret", lid)
+            st0 = dict(st, assign=dict(st["assign"]))
+            st0["assign"][lr] = False
+            nxt(None, st0)                                    # zero iterations
+            def after_body(ex, st2):
+                st3 = dict(st2, assign=dict(st2["assign"]))
+                if ex == "return" and st3.get("ret_depth") == depth:
+                    st3["assign"][lr] = True
+                    k("return", st3)
+                elif ex in ("return", "raise"):
+                    k(ex, st3)
+                else:
+                    st3["assign"].setdefault(lr, False)
+                    nxt(None, st3)                            # fell through / break / continue: the loop is left
+            seq(n[2], 0, dict(st, assign=dict(st["assign"])), depth, loops + [(lid, depth)], after_body)
+        elif kind == "return":
+            st2 = dict(st, ret=n[1], ret_depth=depth)
+            k("return", st2)
+        elif kind == "raise":
+            k("raise", st)
+        elif kind in ("break", "continue"):
+            if any(d == depth for _l, d in loops):
+                k(kind, st)
+            else:
+                # a break of an unrolled loop: the remaining iterations are nested in the other branch; go on after it
+                k(None, st)
+        elif kind == "try":
+            seq(n[1], 0, st, depth, loops, nxt)
+        elif kind == "sink":
+            seq(nodes, i + 1, dict(st, sink=st["sink"] + 1), depth, loops, k)
+        else:
+            seq(nodes, i + 1, st, depth, loops, k)
+
+    def done(ex, st):
+        out.append((st["assign"], st["sink"], st.get("ret") if ex == "return" and st.get("ret_depth") == 0 else None, ex))
+    seq(m.tree, 0, {"assign": {}, "sink": 0}, 0, [], done)
+    return out
+
+
+def rule_match_result(rep: Report, rid="C05.result", cls_q=MQ) -> None:
+    """Every match_<Kind> answers True exactly when it has reported the match (filled the token in) and False otherwise:
+    the parser acts on the answer, the builder on the token."""
+    M = mnf(cls_q)
+    for kind, m in M.methods.items():
+        I = m.I
+        rep.used_function(m.fi.qualname)
+        paths = match_paths(m)
+        bad = []
+        for assign, sink, ret, ex in paths:
+            if ex == "raise":
+                continue
+            val = resolve_conds(ret, assign) if ret is not None else NONE
+            try:
+                res = nf.eval_test(val, assign) if not is_const(val, None) else None
+            except KeyError:
+                res = "?"
+            if res == "?" or res is None:
+                bad.append(("result not decided by the tests on the path" if res == "?" else "returns None", fmt(val, I)[:120]))
+            elif bool(res) != (sink >= 1) or sink > 1:
+                bad.append((f"returns {bool(res)} after reporting {sink} match(es)", [(fmt(a, I)[:60], v) for a, v in list(assign.items())[:4]]))
+        rep.ob(rid, f"match_{kind} returns True exactly on the paths where it reports the match (once), False on all others", bool(paths) and not bad, **_kw(m),
+               expected="return True after the sink call; return False otherwise", found=bad[:3] or f"{len(paths)} path(s) agree")
+
+
 def rule_keyword_types(rep: Report, rid="C05.types") -> None:
     """keyword_types: given->Context, when->Action, then->Outcome, and+but->Conjunction; unique category else 'Unknown'."""
     I = new_interp()
@@ -718,6 +824,27 @@ def rule_other_text(rep: Report, rid="C13.text", cls_q=MQ, openers=('"""', "```"
                not bad, **kw, expected="per-case table (active delimiter x indentation relation)", found=bad[:3] or "all cases as expected")
         rep.ob(rid, "content lines are reported at column 1 (indent 0), kind Other", a.get("indent") == const(0) and a.get("matched_type") == const("Other"), **kw,
                expected="indent=0", found=(fmt(a.get("indent"), I) if a.get("indent") else None))
+    # outside a doc string nothing is removed: free-text (description) lines keep their indentation.  The 'indent to remove'
+    # is 0 after reset() and after every closing delimiter; only an opening delimiter sets it (to its own indent)
+    writes = []
+    ds = M.methods["DocStringSeparator"]
+    dline = ("attr", ds.tok, "line")
+    for n, ctx in nf.iter_nodes(ds.tree):
+        if n[0] == "setattr" and n[1] == ds.selft and n[2] == N.DS_INDENT:
+            writes.append(("match_DocStringSeparator", n[3], n[-1] if isinstance(n[-1], int) else None))
+    Ir = new_interp()
+    rfi = M.cls.find_method("reset")
+    Ir.types[("param", rfi.params()[0])] = M.cls
+    Ir.intrinsics[f"{MQ}.{N.CHANGE_DIALECT}"] = lambda I_, st_, fi_, args, kwargs, n, tree_: NONE
+    rtree, _, rst = Ir.run(rfi.qualname)
+    rsets = [n for n, ctx in nf.iter_nodes(rtree) if n[0] == "setattr" and n[2] == N.DS_INDENT and not nf.guards_in_ctx(ctx)]
+    for n in rsets:
+        writes.append(("reset", n[3], None))
+    bad = [(w, fmt(v, ds.I)) for w, v, _ in writes if not (is_const(v, 0) or v == ("attr", dline, "indent"))]
+    rep.ob(rid, "outside a doc string no indentation is removed from free-text lines: the indent to remove is 0 after reset() and after a closing "
+                "delimiter, and an opening delimiter's own indent inside", bool(rsets) and any(is_const(v, 0) for w, v, _ in writes if w == "reset") and not bad
+           and any(w != "reset" and is_const(v, 0) for w, v, _ in writes), **_kw(m),
+           expected="self._indent_to_remove = 0 in reset() and on close; = token.line.indent on open", found=bad or [(w, fmt(v, ds.I)) for w, v, _ in writes])
 
 
 def rule_token_table(rep: Report, rid="C16.trim", rid_col="C04.col") -> None:
